@@ -31,10 +31,11 @@ ASSUMPTIONS = ['pyg_base.sort orders the (key, row id) pairs as the model of C07
                'pivot: y values are None / ints / floats / strings / datetimes; an int y becomes the column key str(y), every other y value is the column key itself '
                '(a float / datetime / None key of the dict): the model names such a key U+0000 + its wire atom and the runner encodes the implementation\'s '
                'column keys (and the y column of unpivot, which lists them) the same way; string cells do not start with U+0000; two y values with one column key '
-               '(1 beside \'1\') or a key equal to an x column name: ValueError (defect P1, fixed); NaN / bools are not used as y values '
-               '(dict keys by identity / equal to 1, 0); datetime.date objects are not generated (a date beside the equal datetime raises KeyError: outside the quantifier); '
-               'tables handed to pivot have at least one row; aggregators: None, len, first, last',
-               'cells are scalars (None, ints, quarter floats, strings, datetimes); NaN appears in key columns of listby/groupby only']
+               '(1 beside \'1\') or a key equal to an x column name: ValueError (defect P1, fixed); NaN y values of any identity are one y value whose column key is a NaN object '
+               '(named U+0000 F:nan; defect G4, fixed); bools are not used as y values (equal to 1, 0 as dict keys); datetime.date objects are not generated '
+               '(a date beside the equal datetime raises KeyError: outside the quantifier); aggregators on the wire: None, len, first, last (the theorem pivot_cell_fn covers any total function)',
+               'cells are scalars (None, ints, quarter floats, strings, datetimes, NaN objects of any identity)',
+               'groupby: the group column (grp=, default \'grp\') named like a key column is rejected with ValueError (defect G1, fixed); column names include grp, self, data, columns']
 CALL_TIMEOUT = 8
 D = datetime.datetime
 
